@@ -7,8 +7,10 @@ import time
 
 import build
 
-EVID = os.path.join(build.VERIF, "evidence")
-REPLAY = os.path.join(build.VERIF, "replay")
+# evidence committed under /verif/evidence must come from runs against /repo itself; runs against another tree
+# (VERIF_REPO = a scratch worktree with a seeded change) write into their own work area
+EVID = os.path.join(build.VERIF, "evidence") if build.REPO == "/repo" else os.path.join(build.WORK, "evidence")
+REPLAY = os.path.join(build.VERIF, "replay") if build.REPO == "/repo" else os.path.join(build.WORK, "replay")
 KNOWN = os.path.join(build.VERIF, "known_findings.json")
 
 ASSUMPTIONS = [
